@@ -35,15 +35,16 @@ const c11CachedQuery = "select a, b, c from t where id = ?"
 // CachedConn has only the strict NoCache forms.
 func c11CachedQueryRun(c sqlx.C11RowsCase, db *sql.DB, v any) error {
 	cc := sqlc.NewConnWithCache(sqlx.NewConnFromDB(db), nil)
+	args := sqlx.VerifC11RowsArgs(c)
 	switch {
 	case c.Single && c.Ctx:
-		return cc.QueryRowNoCacheCtx(sqlx.VerifC11RowsCtx(c), v, c11CachedQuery, 1)
+		return cc.QueryRowNoCacheCtx(sqlx.VerifC11RowsCtx(c), v, c11CachedQuery, args...)
 	case c.Single:
-		return cc.QueryRowNoCache(v, c11CachedQuery, 1)
+		return cc.QueryRowNoCache(v, c11CachedQuery, args...)
 	case c.Ctx:
-		return cc.QueryRowsNoCacheCtx(sqlx.VerifC11RowsCtx(c), v, c11CachedQuery, 1)
+		return cc.QueryRowsNoCacheCtx(sqlx.VerifC11RowsCtx(c), v, c11CachedQuery, args...)
 	default:
-		return cc.QueryRowsNoCache(v, c11CachedQuery, 1)
+		return cc.QueryRowsNoCache(v, c11CachedQuery, args...)
 	}
 }
 
